@@ -54,6 +54,8 @@ def _plan(tier, seed):
             jobs.append((prof, fs, "copy", seed * 1000 + 800, 10 if quick else 100, False))
             jobs.append((prof, fs, "rw", seed * 1000 + 900, 10 if quick else 100, False))
             jobs.append((prof, fs, "cda", seed * 1000 + 950, 12, False))
+            # real short transfers: RLIMIT_FSIZE around writers/copy, chunk-fed fifo and /proc for readers
+            jobs.append((prof, fs, "short", seed * 1000 + 990, 10 if quick else 100, False))
         # one-component absolute paths ("/x") can only be exercised inside a chroot
         jobs.append(("debug", fs, "cda", seed * 1000 + 960, 12, True))
         jobs.append(("debug", fs, "seq", seed * 1000 + 970, 300 if quick else 3000, True))
@@ -63,6 +65,7 @@ def _plan(tier, seed):
             jobs.append(("asan", fs, "seq", seed * 1000 + 31, 3000, False))
             jobs.append(("asan", fs, "len", seed * 1000 + 701, 10, False))
             jobs.append(("asan", fs, "rmall", seed * 1000 + 501, 300, False))
+            jobs.append(("asan", fs, "short", seed * 1000 + 991, 10, False))
     return jobs
 
 
@@ -174,10 +177,12 @@ def run(ck, replay=None):
     ck.assume("observer = std::fs (read_dir, symlink_metadata, read, read_link) from the same process between operations; no concurrent modification of the sandbox")
     ck.assume("runs as the user of the check (root here): permission-denied destination states cannot be produced, read-only files are still writable")
     ck.assume("operations whose path resolves to a fifo/socket are not issued (open would block); source==destination copies are not issued")
+    ck.assume("short writes are provoked with a lowered soft RLIMIT_FSIZE (SIGXFSZ ignored) around the tiny-std call only; short reads with a chunk-fed fifo and /proc files; other causes of short transfers (signals, full disk, quotas) are not produced")
     ck.assume("paths of 4096 bytes and more are only checked for 'no Ok, no panic'")
     return ("matrices: create_dir_all over (1..12 components) x (every existing-prefix/missing-suffix split) x 6 separator shapes x rel/abs "
             "(+chroot for '/x') and non-directory leaf/ancestor kinds; path lengths stepping over 512 and 4096 bytes for every operation; "
             "copy and write/read over (source size) x (destination absent/shorter/equal/longer/read-only/symlink/dangling/dir); "
+            "short transfers: fs::write / append+write_all / overwrite+write_all / copy_file / File::copy under RLIMIT_FSIZE limits (1..100001, page multiples and odd) with payloads just below/at/above the limit, fs::read/read_to_string from chunk-fed fifos and /proc; "
             "directory iteration + remove_dir_all over name-length profiles 1..255 x entry counts up to 5000 (12000 thorough) with files/dirs/"
             "symlinks/fifos; remove_dir_all over random trees (depth<=6) with links into a sentinel tree; seeded random operation sequences on a "
             "random tree with byte-arbitrary names. Every operation bracketed by full std::fs snapshots of the sandbox (operated tree + sentinel) "
